@@ -27,13 +27,19 @@ SPEC = dict(
         "internal/governance/quota_tracker.go",
         "internal/governance/manager.go",
     ],
-    hooks={"internal/governance": "go/hooks/c28_governance"},
-    harnesses=[dict(name="c28", timeout=dict(quick=300, thorough=1800))],
+    hooks={"internal/governance": "go/hooks/c28_governance", "internal/api": "go/hooks/c28_api",
+           "internal/license": "go/hooks/c28_license"},
+    harnesses=[
+        dict(name="c28", timeout=dict(quick=300, thorough=1800)),
+        # handler level: the real QueryHandler.executeQuery (fiber app, injected token info, governance-enabled
+        # license) in front of the real Manager; same ops / same model driver as the manager ops of c28
+        dict(name="c28h", tags="verif duckdb_arrow", driver="drive_c28", timeout=dict(quick=600, thorough=1800)),
+    ],
     trusted_base=[
         "sync.Mutex makes each Allow / AllowQuery / UpdateLimit(s) call one atomic step, so concurrent callers reduce to sequences (exercised by concurrent bursts at a frozen clock, whose aggregate outcome is schedule independent)",
         "the process clock is the virtual clock injected by the overlay's clockify rewrite of internal/governance/{sliding_window,quota_tracker,manager}.go; time.Time.Truncate is modelled as floor to a multiple of d since Go's zero time",
         "the Go ring buffer (slots, currentSlot) is represented in the model as the same counts ordered by age plus currentSlot; the physical layout is re-derived and diffed against the real array after every op",
-        "the governance block of executeQuery is reproduced by the harness (CheckRateLimit, return on reject, CheckQuota) — its order is tied syntactically by factgen, the HTTP handler itself is not run",
+        "harness c28 reproduces the governance block of executeQuery (CheckRateLimit, return on reject, CheckQuota); harness c28h runs the real QueryHandler.executeQuery over HTTP (fiber app.Test) with token info injected by a middleware and a license struct planted by a verif hook — the auth middleware and license verification are outside the model; every request carries an empty SQL string so admitted requests stop at request validation",
         "time differences stay within int64 nanoseconds (time.Duration saturation is not modelled)",
     ],
     assumptions=[
